@@ -427,6 +427,16 @@ def r_drain_protocol(F, V):
         else:
             # what is written back is self.table
             R.inst(key, "drop_elements < clear_no_drop < write-back of self.table into the original", "ok", True, where(db))
+    # (iv) a parallel drain that is dropped without having been driven still owns every element: its destructor destroys them
+    for pth, db2 in F.bodies.items():
+        if pth.endswith("<RawParDrain as Drop>::drop"):
+            key = pth + "|destroys"
+            reach = set(F.reachable_fns(pth))
+            if any(x.endswith("::drop_elements") for x in reach) or any(callee_path(t) == BUCKET_DROP for q in reach | {pth} for _, t in F.bodies[q].calls()):
+                R.inst(key, "the destructor of an undriven parallel drain destroys the elements (clear / drop_elements) and resets the table", "ok", True, where(db2))
+            else:
+                R.violation(key, db2, "the destructor of RawParDrain only resets the table (clear_no_drop) and never runs the element destructors: a `par_drain()` that is created but not driven leaks every element of the collection")
+                R.inst(key, "undriven parallel drain leaks its elements", "violation", True, where(db2))
     # (iii) rayon RawParDrain::drive_unindexed installs its clear_no_drop guard before bridging
     pb = [b for p, b in F.bodies.items() if p.endswith("<RawParDrain as ParallelIterator>::drive_unindexed")]
     for b in pb:
@@ -638,7 +648,14 @@ def _singleton_negative_arm(F, body, block, root):
                 cp = callee_path(o[2]) or ""
                 if cp.endswith("::is_empty_singleton") and o[2]["args"]:
                     r, _ = operand_deep_root(body, o[2]["args"][0])
-                    if (root is None or r == root) and s in zero:
+                    same = (root is None or r == root)
+                    if not same and root is not None and not body.is_arg(root):
+                        # the table that was tested, moved out afterwards: `if !self.is_empty_singleton() { let old = mem::replace(self, NEW); .. }`
+                        d_ = body.single_def(root)
+                        if d_ and d_[0] == "call" and callee_path(d_[3]) in ("core::mem::replace", "core::mem::take", "core::ptr::read") and d_[3]["args"] \
+                                and operand_deep_root(body, d_[3]["args"][0])[0] == r and (body.dominates(b, d_[1]) or b == d_[1]):
+                            same = True
+                    if same and s in zero:
                         return True
                 if cp.endswith("::is_empty") and False:
                     pass
@@ -1121,7 +1138,8 @@ def r_drop_order(F, V):
         R.violation("raw::RawTable|no-drop", _NoBody("raw::RawTable"), "RawTable has no Drop impl: every table leaks its elements and its block")
     else:
         n += 1
-        if any((callee_path(t) or "").endswith("::drop_inner_table") and _arg_has_field(b, t, "table") for i, t in b.calls()):
+        inl_ = any((callee_path(t) or "").endswith("::drop_elements") for i, t in b.calls()) and any((callee_path(t) or "").endswith("::free_buckets") for i, t in b.calls())
+        if any((callee_path(t) or "").endswith("::drop_inner_table") and _arg_has_field(b, t, "table") for i, t in b.calls()) or inl_:
             R.inst("raw::<RawTable as Drop>::drop", "Drop releases self.table through drop_inner_table", "ok", True, where(b))
         else:
             R.violation("raw::<RawTable as Drop>::drop|release", b, "RawTable::drop does not release self.table through drop_inner_table")
@@ -1130,10 +1148,37 @@ def r_drop_order(F, V):
         n += 1
         key = "raw::RawTableInner::resize_inner|old-block-freed-by-guard"
         swaps = [i for i, t in rb.calls() if (callee_path(t) or "") == "core::mem::swap"]
+        replaces = [i for i, t in rb.calls() if (callee_path(t) or "") == "core::mem::replace" and t["args"] and operand_deep_root(rb, t["args"][0])[0] == 1
+                    and any(x == INNER for x in t["f"].get("substs", []))]
         glocals = [l for l in range(len(rb.locals)) if rb.locals[l]["ty"].get("path") == "scopeguard::ScopeGuard"]
         problems = []
-        if not swaps:
-            problems.append("no mem::swap of the old and the new table")
+        if not swaps and not replaces:
+            problems.append("the new table is never installed into self (no mem::swap / mem::replace of the old and the new table)")
+        # while the elements are re-hashed (user code) the new allocation has to be owned by a guard: RawTableInner has no destructor
+        fresh = [t["dest"]["l"] for i, t in rb.calls() if (callee_path(t) or "").endswith("RawTableInner::fallible_with_capacity") or (callee_path(t) or "").endswith("RawTableInner::new_uninitialized")
+                 or (callee_path(t) or "").endswith("RawTableInner::prepare_resize")]
+        gds_ = guard_defs(rb)
+        first_install = (swaps + replaces)
+        for (ci, cd) in V.callback_sites(rb):
+            if first_install and all(ci in _reach(rb, x) for x in first_install):
+                continue        # after the new table has been installed
+            if not fresh:
+                break
+            owned = any(guard_live_at(rb, g, ci) for g in gds_) or any(rb.locals[l]["ty"].get("path") == "scopeguard::ScopeGuard" for l in fresh)
+            if not owned:
+                # a guard handed over by a callee (prepare_resize returns the new table already wrapped): a ScopeGuard-typed local
+                # holding a RawTableInner that has not been defused before this point
+                for gl in glocals:
+                    if "RawTableInner" not in rb.locals[gl]["ty"]["s"]:
+                        continue
+                    dis = guard_disarms_local(rb, gl) + guard_disarms_local(rb, rb.root_of_place({"l": gl})[0])
+                    if not any(ci in _reach(rb, d_) for d_ in dis):
+                        owned = True
+            if not owned:
+                problems.append("user code (%s) runs while the freshly allocated table is held in a plain local: RawTableInner has no destructor, so a panic there leaks the new block (only a destructor panic may leak table memory)" % cd)
+                break
+        if replaces and not swaps:
+            glocals = []    # the old block is freed explicitly (R-LINEAR-INNER checks that the replaced-out table reaches free_buckets)
         for g in glocals:
             if "name" not in rb.locals[g]:
                 continue
